@@ -18,6 +18,7 @@ RULE = ("exhaustive strings over reduced byte alphabets (len<=5 over {00,01,7f,8
 ASSUMPTIONS = [
     "the independent Python reference, the C transcription (ASan+UBSan) and 17 published vectors agree with one another (checked each run)",
     "strings of code points 0..255 are identified with bytes via latin-1",
+    "a seed outside 0..2^32-1 is outside the statement's 'every 32-bit seed'; release stability (last sentence) is read as: such a seed keeps meaning its low 32 bits, which is what the pinned release computes",
     "for other strings the statement only demands a deterministic 32-bit value; additionally (release stability, last sentence of the statement) the value must stay what the pinned release computes, i.e. the reference applied to code points mod 256",
 ]
 MIN_NONTRIVIAL = {"quick": 50000, "thorough": 1000000}
@@ -46,7 +47,7 @@ def _install_contract(res):
             b = data.encode("latin-1")
         except UnicodeEncodeError:
             return True            # other strings: range + determinism only (checked by caller)
-        exp = refs.murmur3_bytes(b, seed)
+        exp = refs.murmur3_bytes(b, seed & 0xFFFFFFFF)        # (seeds outside 32 bits: see the release-stability section)
         if result != exp:
             state["last"] = "got %#x expected %#x" % (result, exp)
             return False
@@ -208,6 +209,36 @@ def shard(tier, seed, idx, n):
                           % (s, sd, a, refs.murmur3_mod256(s, sd)), (s, sd))
         res.maximum("max_nonlatin1_length", len(s))
         res.case(("nl", s, sd))
+    # seeds outside 0..2^32-1 (RendezvousHash(seed=-1), a 64-bit seed from a config file): the statement speaks of 32-bit
+    # seeds only; the pinned release reads such a seed as its low 32 bits, and placement 'does not change between releases'
+    wide = [-1, -2, -(1 << 31), -(1 << 32), 1 << 32, (1 << 32) + 5, (1 << 40) + 7, (1 << 64) - 1, -(1 << 63), -12345678901]
+    for it in range(idx, 1200 if tier == "quick" else 12000, n):
+        rng = random.Random(seed * 7919 + it)
+        s = "".join(chr(rng.randrange(256)) for _ in range(rng.choice((0, 1, 2, 3, 4, 5, 7, 8, 13, 16, 31, 64))))
+        sd = wide[it % len(wide)] if it % 3 else rng.randrange(-(1 << 70), 1 << 70)
+        try:
+            a = fn(s, sd)
+            b = fn(s, sd)
+        except Broken:
+            res.violation("wide-seed-value-changed-between-releases", "murmur3_32(%r, %d): %s; the pinned release reads the seed as %#x"
+                          % (s, sd, state["last"], sd & 0xFFFFFFFF), (s, sd))
+            continue
+        except Exception as e:
+            res.violation("raises-wide-seed-" + type(e).__name__, "murmur3_32(%r, %d) raised %r" % (s, sd, e), (s, sd))
+            continue
+        res.count("wide_seed_checks")
+        if a != b:
+            res.violation("nondeterministic-wide-seed", "differs", (s, sd))
+        res.case(("wide-seed", s, sd))
+    for sd in wide:
+        h1 = rendezvous.RendezvousHash(nodes=["a:1", "b:2", "c:3", "d:4"], seed=sd)
+        h2 = rendezvous.RendezvousHash(nodes=["a:1", "b:2", "c:3", "d:4"], seed=sd & 0xFFFFFFFF)
+        for j in range(40):
+            if h1.get_node("key-%d" % j) != h2.get_node("key-%d" % j):
+                res.violation("wide-seed-placement-changed-between-releases", "RendezvousHash(seed=%d) places key-%d on %r; the pinned "
+                              "release places it like seed=%#x: %r" % (sd, j, h1.get_node("key-%d" % j), sd & 0xFFFFFFFF, h2.get_node("key-%d" % j)),
+                              ("key-%d" % j, sd))
+                break
     # the name bound in rendezvous.py is really monitored
     before = res.counters["contract_evaluations"]
     rendezvous.RendezvousHash(nodes=["a:1", "b:2"]).get_node("k")
